@@ -165,7 +165,7 @@ PROPS = {
         race=True, gen=gen_lock, timeout=3000,
         note="sync.RWMutex implementing the protocol, the Go memory model and the scheduler are trusted; lockscan (source translator) is trusted.",
     ),
-    "C13": dict(
+    "C13_pending": dict(
         rule="states of Pollard, full and partial MapPollard (TotalRows 0,4,5,63) after random histories: restore under 5 chunkings "
              "(whole, 1 byte, 16, random, data-with-EOF), every truncation point (sampled above 600 bytes in quick), writer failure "
              "at 50/400 offsets, byte counts and SerializeSize, restored instance observed through the interface by the oracle and "
@@ -196,6 +196,21 @@ PROPS = {
                    "well-formed TTL input and every memory limit; that genTTLs produces exactly the TTL facts of the slot history and "
                    "that the Go loop equals the mirror are checked by the extracted oracle along random histories.",
         technique="Coq proof about executable mirror of the eviction loop + extracted-oracle correspondence",
+    ),
+    "C17": dict(
+        rule="(a) generated obligation: slice-effect IR and per-function summaries regenerated from the package's SSA (effscan) and "
+             "re-validated by the Coq checker; entry points must not write their caller-slice parameters; (b) dynamic: along random "
+             "histories every API call receives argument slices with sentinel-filled spare capacity; contents and spare capacity "
+             "compared after each call; earlier returned proofs re-compared after every later call; distinct_nontrivial = distinct histories",
+        strength="P: checker soundness (interprocedural, no axioms); generated: effects_ok, entry_points_clean, no_retain; V: dynamic snapshots",
+        level_text="A flow-insensitive slice-effect IR with a concrete heap semantics and a checker proved sound in Coq (if check_program "
+                   "holds, no array owned by a caller parameter outside the declared write set is ever modified). The IR and the "
+                   "summaries are regenerated from the source on every run and re-checked; the entry points listed in the property "
+                   "must come out clean. One named value-preserving exemption (MapPollard.Undo) and the stability of earlier results "
+                   "of three methods are covered by the dynamic snapshot run.",
+        technique="Coq verified checker + effect IR regenerated from source (go/ssa) + dynamic argument snapshots",
+        gen=gen_eff, timeout=3000,
+        note="SSA-to-IR mapping and the table of library primitives (copy, append, sort, io, binary, fmt) are trusted; see tools/effscan/README.md.",
     ),
     "C10": dict(
         rule=HIST_RULE + "; after every block: GetLeafPosition for every live leaf, every dead leaf, every internal node hash and a "
@@ -231,4 +246,5 @@ PROPS = {
 
 # hooks
 HOOK_COMMITS = ["1f8cf1e"]
-NOT_YET = {}
+NOT_YET = {"C13": "Coq codec mirror is being built in this session; harness part exists (bin/check C13 works once Properties/C13.v lands)"}
+PROPS = {k: v for k, v in PROPS.items() if not k.endswith("_pending")}
